@@ -300,15 +300,17 @@ def describe_templated(t) -> dict:
         if s1 > n:
             return {"patch_defect": "out-of-range", "patch_cat": cat}
     for s0, s1, txt, cat in t["merged_patches"]:
-        inside = any(a <= s0 and s1 <= b for a, b in fr) or (s0 == s1 and any(s0 in (a, b) for a, b in fr))
-        if not inside:
+        # a patch no fix range overlaps, contains or abuts carries a change the fixes did not ask for
+        related = any(max(a, s0) < min(b, s1) or (s0 == s1 and a <= s0 <= b) or (a == b and s0 < a < s1) for a, b in fr)
+        if not related:
             if s0 == s1:
                 in_tag = any(a < s0 < b for a, b, _ in nonlit)
                 at_tag = any(s0 in (a, b) for a, b, _ in nonlit)
                 return {"patch_defect": "insert-outside-fix-ranges", "patch_cat": cat,
                         "where": "inside-tag" if in_tag else ("tag-boundary" if at_tag else "literal")}
             touches = sorted({ty for a, b, ty in nonlit if max(a, s0) < min(b, s1)})
-            return {"patch_defect": "edit-outside-fix-ranges", "patch_cat": cat, "touches": ",".join(touches)}
+            return {"patch_defect": "edit-outside-fix-ranges", "patch_cat": cat, "touches": ",".join(touches),
+                    "deletion": txt == ""}
     return {"patch_defect": None}
 
 
